@@ -44,10 +44,12 @@ fn kth(mask: u8, k: usize) -> usize {
     src
 }
 
-fn filter_native_model(strategy: u8, poff: usize) {
+// One predicate shape (mask is a compile-time constant in every call), arbitrary values: with a concrete mask every
+// copy into the output has a concrete size.  (With a symbolic mask the run boundaries, and with them every memcpy
+// length and the output's growth, are symbolic: 2 of 7 such harnesses finished, the rest hit the time or memory
+// cap.)  The masks used cover: single row, one run in the middle, two runs, alternating, run at the end, all but one.
+fn filter_native_case(strategy: u8, poff: usize, mask: u8) {
     let vals: [i16; N] = kani::any();
-    let mask: u8 = kani::any();
-    kani::assume(mask < 16 && mask != 0 && mask != 15);
     let p = predicate(mask, poff, strategy);
     let out = filter_native::<i16>(&vals, &p);
     let n_out = mask.count_ones() as usize;
@@ -56,62 +58,52 @@ fn filter_native_model(strategy: u8, poff: usize) {
     kani::assume(k < n_out);
     let got = out.typed_data::<i16>()[k];
     assert!(got == vals[kth(mask, k)], "output row k is the k-th selected input row");
-    kani::cover!(mask == 0b1010, "alternating");
-    kani::cover!(mask == 0b0110, "one run in the middle");
     std::mem::forget(out);
     std::mem::forget(p);
 }
 
+macro_rules! filter_native_instance {
+    ($name:ident, $strategy:expr, $poff:expr) => {
+        #[kani::proof]
+        #[kani::unwind(8)]
+        #[kani::stub(alloc::fmt::format, stub_format)]
+        fn $name() {
+            filter_native_case($strategy, $poff, 0b0100);
+            filter_native_case($strategy, $poff, 0b0110);
+            filter_native_case($strategy, $poff, 0b1001);
+            filter_native_case($strategy, $poff, 0b1010);
+            filter_native_case($strategy, $poff, 0b1100);
+            filter_native_case($strategy, $poff, 0b1011);
+            kani::cover!(true, "reached the end");
+        }
+    };
+}
+
 //@ tier: quick
 //@ functions: arrow_select::filter::{filter_native::<i16>, SlicesIterator::{new, next}}
-//@ bound: 4 rows of i16, every non-trivial predicate mask (all/none are routed elsewhere by the dispatcher), predicate at bit offset 6 (the 4 predicate bits straddle a byte boundary; a symbolic offset gave no verdict in 300 s), lazy SlicesIterator strategy; per-index on the output row; unwind 8
+//@ bound: 4 rows of arbitrary i16, six predicate shapes (0100, 0110, 1001, 1010, 1100, 1011: single row, one run, two runs, alternating, run at the end, all but one), predicate at bit offset 6 (its 4 bits straddle a byte boundary), lazy SlicesIterator strategy; per-index on the output row; unwind 8
 //@ stub: alloc::fmt::format -> empty String
-#[kani::proof]
-#[kani::unwind(8)]
-#[kani::stub(alloc::fmt::format, stub_format)]
-fn c03_filter_native_slices_iterator() {
-    filter_native_model(0, 6);
-}
-
+filter_native_instance!(c03_filter_native_slices_iterator, 0, 6);
 //@ tier: quick
 //@ functions: arrow_select::filter::{filter_native::<i16>, IndexIterator::{new, next}}, MutableBuffer::from_trusted_len_iter
-//@ bound: 4 rows, every non-trivial mask, predicate at bit offset 6, lazy IndexIterator strategy; unwind 8
+//@ bound: as c03_filter_native_slices_iterator, lazy IndexIterator strategy; unwind 8
 //@ stub: alloc::fmt::format -> empty String
-#[kani::proof]
-#[kani::unwind(8)]
-#[kani::stub(alloc::fmt::format, stub_format)]
-fn c03_filter_native_index_iterator() {
-    filter_native_model(1, 6);
-}
-
+filter_native_instance!(c03_filter_native_index_iterator, 1, 6);
 //@ tier: quick
 //@ functions: arrow_select::filter::{filter_native::<i16>, FilterBuilder::optimize (Slices)}
-//@ bound: 4 rows, every non-trivial mask, predicate at bit offset 6, materialised Slices strategy; unwind 8
+//@ bound: as c03_filter_native_slices_iterator, materialised Slices strategy; unwind 8
 //@ stub: alloc::fmt::format -> empty String
-#[kani::proof]
-#[kani::unwind(8)]
-#[kani::stub(alloc::fmt::format, stub_format)]
-fn c03_filter_native_slices_materialised() {
-    filter_native_model(2, 6);
-}
-
+filter_native_instance!(c03_filter_native_slices_materialised, 2, 6);
 //@ tier: quick
 //@ functions: arrow_select::filter::{filter_native::<i16>, IndexIterator::collect (Indices)}
-//@ bound: 4 rows, every non-trivial mask, predicate at bit offset 6, materialised Indices strategy; unwind 8
+//@ bound: as c03_filter_native_slices_iterator, materialised Indices strategy; unwind 8
 //@ stub: alloc::fmt::format -> empty String
-#[kani::proof]
-#[kani::unwind(8)]
-#[kani::stub(alloc::fmt::format, stub_format)]
-fn c03_filter_native_indices_materialised() {
-    filter_native_model(3, 6);
-}
+filter_native_instance!(c03_filter_native_indices_materialised, 3, 6);
 
-fn filter_bits_model(strategy: u8) {
+fn filter_bits_case(strategy: u8, mask: u8) {
     let bits: u16 = kani::any();
     let boff: usize = 5;
-    let mask: u8 = kani::any();
     let poff: usize = 6;
-    kani::assume(mask < 16 && mask != 0 && mask != 15);
     let src = BooleanBuffer::new(Buffer::from_vec(bits.to_le_bytes().to_vec()), boff, N);
     let p = predicate(mask, poff, strategy);
     let out = filter_bits(&src, &p);
@@ -124,14 +116,8 @@ fn filter_bits_model(strategy: u8) {
     // filter_nulls on the same data: None iff no selected row is null, else the filtered validity
     let nulls = NullBuffer::new(src.clone());
     let fnulls = p.filter_nulls(Some(&nulls));
-    let mut any_null = false;
-    let mut j = 0;
-    while j < N {
-        if (mask >> j) & 1 == 1 && (bits >> (boff + j)) & 1 == 0 {
-            any_null = true;
-        }
-        j += 1;
-    }
+    let sel = (bits >> boff) as u8 & 0x0F;
+    let any_null = (!sel) & mask != 0;
     match &fnulls {
         None => assert!(!any_null, "no validity buffer only when every selected row is valid"),
         Some(nb) => {
@@ -139,8 +125,6 @@ fn filter_bits_model(strategy: u8) {
             assert!(nb.is_valid(k) == want, "validity of output row k");
         }
     }
-    kani::cover!(fnulls.is_some() && mask == 0b0101);
-    kani::cover!(fnulls.is_none() && (bits >> boff) & 0xF != 0xF, "nulls only in unselected rows");
     std::mem::forget(fnulls);
     std::mem::forget(nulls);
     std::mem::forget(out);
@@ -148,66 +132,57 @@ fn filter_bits_model(strategy: u8) {
     std::mem::forget(p);
 }
 
+macro_rules! filter_bits_instance {
+    ($name:ident, $strategy:expr) => {
+        #[kani::proof]
+        #[kani::unwind(8)]
+        #[kani::stub(alloc::fmt::format, stub_format)]
+        fn $name() {
+            filter_bits_case($strategy, 0b0110);
+            filter_bits_case($strategy, 0b1001);
+            filter_bits_case($strategy, 0b1011);
+            kani::cover!(true, "reached the end");
+        }
+    };
+}
+
 //@ tier: quick
+//@ timeout: 600
 //@ functions: arrow_select::filter::{filter_bits, FilterPredicate::filter_nulls}, BooleanBufferBuilder::append_packed_range, NullBuffer::new
-//@ bound: 4 source bits at bit offset 5, every non-trivial mask at predicate offset 6 (both straddle a byte boundary), lazy SlicesIterator strategy; per-index; unwind 8
+//@ bound: 4 arbitrary source bits at bit offset 5, predicate shapes 0110, 1001, 1011 at predicate offset 6 (both straddle a byte boundary), lazy SlicesIterator strategy; values per index, validity buffer present iff a selected row is null; unwind 8
 //@ stub: alloc::fmt::format -> empty String
-#[kani::proof]
-#[kani::unwind(8)]
-#[kani::stub(alloc::fmt::format, stub_format)]
-fn c03_filter_bits_slices_iterator() {
-    filter_bits_model(0);
-}
-
+filter_bits_instance!(c03_filter_bits_slices_iterator, 0);
 //@ tier: quick
+//@ timeout: 600
 //@ functions: arrow_select::filter::{filter_bits, FilterPredicate::filter_nulls}, MutableBuffer::from_trusted_len_iter_bool
-//@ bound: 4 source bits at bit offset 5, every non-trivial mask at predicate offset 6 (both straddle a byte boundary), lazy IndexIterator strategy; unwind 8
+//@ bound: as c03_filter_bits_slices_iterator, lazy IndexIterator strategy; unwind 8
 //@ stub: alloc::fmt::format -> empty String
-#[kani::proof]
-#[kani::unwind(8)]
-#[kani::stub(alloc::fmt::format, stub_format)]
-fn c03_filter_bits_index_iterator() {
-    filter_bits_model(1);
-}
-
+filter_bits_instance!(c03_filter_bits_index_iterator, 1);
 //@ tier: thorough
 //@ functions: arrow_select::filter::filter_bits (Slices)
-//@ bound: as above, materialised Slices strategy; unwind 8
+//@ bound: as c03_filter_bits_slices_iterator, materialised Slices strategy; unwind 8
 //@ stub: alloc::fmt::format -> empty String
-#[kani::proof]
-#[kani::unwind(8)]
-#[kani::stub(alloc::fmt::format, stub_format)]
-fn c03_filter_bits_slices_materialised() {
-    filter_bits_model(2);
-}
-
+filter_bits_instance!(c03_filter_bits_slices_materialised, 2);
 //@ tier: thorough
 //@ functions: arrow_select::filter::filter_bits (Indices)
-//@ bound: as above, materialised Indices strategy; unwind 8
+//@ bound: as c03_filter_bits_slices_iterator, materialised Indices strategy; unwind 8
 //@ stub: alloc::fmt::format -> empty String
-#[kani::proof]
-#[kani::unwind(8)]
-#[kani::stub(alloc::fmt::format, stub_format)]
-fn c03_filter_bits_indices_materialised() {
-    filter_bits_model(3);
-}
+filter_bits_instance!(c03_filter_bits_indices_materialised, 3);
 
-//@ tier: quick
-//@ functions: arrow_select::filter::{FilterBuilder::new, prep_null_mask_filter, IterationStrategy::default_strategy}, BooleanArray::true_count
-//@ bound: 4-row predicate with symbolic values and validity: a null predicate row is not selected; count = rows that are valid and true; strategy None/All exactly for count 0 / count == len; unwind 8
-//@ stub: alloc::fmt::format -> empty String
-#[kani::proof]
-#[kani::unwind(8)]
-#[kani::stub(alloc::fmt::format, stub_format)]
-fn c03_filter_builder_counts_valid_true() {
-    let vals: u8 = kani::any();
-    let valid: u8 = kani::any();
-    let with_nulls: bool = kani::any();
-    let values = BooleanBuffer::new(Buffer::from_vec(vec![vals]), 0, N);
-    let nulls = if with_nulls { Some(NullBuffer::new(BooleanBuffer::new(Buffer::from_vec(vec![valid]), 0, N))) } else { None };
+fn filter_builder_model(with_nulls: bool) {
+    let vals: u16 = kani::any();
+    let valid: u16 = kani::any();
+    // value bits at bit offset 3, validity bits at bit offset 5 of their own 2-byte buffers: different offsets
+    // keep `values & validity` on the general (unaligned) path of the word kernel; operands that share an
+    // offset mod 64 take the aligned fast path, which exceeds the memory cap (DESIGN §10, C19).  `with_nulls`
+    // is concrete per instance (a symbolic Some/None makes the offsets inside the Option symbolic).
+    let values = BooleanBuffer::new(Buffer::from_vec(vals.to_le_bytes().to_vec()), 3, N);
+    let nulls = if with_nulls { Some(NullBuffer::new(BooleanBuffer::new(Buffer::from_vec(valid.to_le_bytes().to_vec()), 5, N))) } else { None };
     let pred = BooleanArray::new(values, nulls);
     let b = FilterBuilder::new(&pred);
-    let eff = if with_nulls { vals & valid & 0x0F } else { vals & 0x0F };
+    let v4 = (vals >> 3) as u8 & 0x0F;
+    let m4 = (valid >> 5) as u8 & 0x0F;
+    let eff = if with_nulls { v4 & m4 } else { v4 };
     assert!(b.count == eff.count_ones() as usize, "count = valid and true");
     let j: usize = kani::any();
     kani::assume(j < N);
@@ -215,7 +190,31 @@ fn c03_filter_builder_counts_valid_true() {
     assert!(b.filter.null_count() == 0, "effective mask has no nulls");
     assert!(matches!(b.strategy, IterationStrategy::None) == (eff == 0), "None iff nothing selected");
     assert!(matches!(b.strategy, IterationStrategy::All) == (eff == 0x0F), "All iff everything selected");
-    kani::cover!(with_nulls && valid & 0x0F != 0x0F && eff != 0);
+    kani::cover!(!with_nulls || (m4 != 0x0F && eff != 0 && v4 != eff), "a true predicate row that is null");
     std::mem::forget(b);
     std::mem::forget(pred);
+}
+
+//@ tier: quick
+//@ timeout: 600
+//@ functions: arrow_select::filter::{FilterBuilder::new, prep_null_mask_filter, IterationStrategy::default_strategy}, BooleanArray::true_count, BooleanBuffer::bitand
+//@ bound: 4-row predicate with symbolic values (bit offset 3) and a validity buffer of symbolic content (bit offset 5): a null predicate row is not selected; count = rows that are valid and true; strategy None/All exactly for count 0 / count == len; unwind 8
+//@ stub: alloc::fmt::format -> empty String
+#[kani::proof]
+#[kani::unwind(8)]
+#[kani::stub(alloc::fmt::format, stub_format)]
+fn c03_filter_builder_counts_valid_true() {
+    filter_builder_model(true);
+}
+
+//@ tier: quick
+//@ timeout: 600
+//@ functions: arrow_select::filter::{FilterBuilder::new, IterationStrategy::default_strategy}, BooleanArray::true_count
+//@ bound: as c03_filter_builder_counts_valid_true, predicate without a validity buffer; unwind 8
+//@ stub: alloc::fmt::format -> empty String
+#[kani::proof]
+#[kani::unwind(8)]
+#[kani::stub(alloc::fmt::format, stub_format)]
+fn c03_filter_builder_no_validity() {
+    filter_builder_model(false);
 }
